@@ -1153,6 +1153,76 @@ def r4f_hasher_responses(ctx, F):
             ctx.violation("hasher-response|spurious|%s" % name, F.fns[fid].loc(), "hasher %s: the bus response must be 1, got %s" % (name, [str(v)[:100] for g, v in res][:2]))
 
 
+def r4h_sibling_table(ctx, F):
+    """sibling table (chiplets virtual table): rows added while the old Merkle path is computed (f_mv, f_mva) and removed while
+    the new one is computed (f_mu, f_mua) have the documented value v_sibling = alpha0 + alpha3*i + b*v_b + (1-b)*v_c"""
+    A = auxmodel.AuxModel(F)
+    ch = A.CHP
+    txt = open("/repo/docs/src/design/chiplets/hasher.md").read()
+    m = re.search(r"v_\{sibling\} = (.*?)\n", txt)
+    if not m:
+        ctx.violation("doc-anchor|v_sibling", "docs/src/design/chiplets/hasher.md", "formula v_sibling not found")
+        return
+    rhs = decdocs.clean(m.group(1))
+    cases = [("f_mv", "get_responses_at", 8, (1, 1, 0), None), ("f_mu", "get_requests_at", 8, (1, 1, 1), None),
+             ("f_mva", "get_responses_at", 16, (0, 0, 0), (1, 1, 0)), ("f_mua", "get_requests_at", 16, (0, 0, 0), (1, 1, 1))]
+    for name, meth, row, sel, prev in cases:
+        fid = builder_fn(F, "ChipletsVTableColBuilder", meth)
+        other = builder_fn(F, "ChipletsVTableColBuilder", "get_requests_at" if meth == "get_responses_at" else "get_responses_at")
+        for bit in (0, 1):
+            off = row - auxmodel.BASE
+            fixed = {(ch, off): 0, (ch + 1, off): sel[0], (ch + 2, off): sel[1], (ch + 3, off): sel[2]}
+            idx_off = off
+            if prev:
+                fixed.update({(ch, off - 1): 0, (ch + 1, off - 1): prev[0], (ch + 2, off - 1): prev[1], (ch + 3, off - 1): prev[2]})
+                idx_off = off - 1
+            else:
+                fixed.update({(ch, off - 1): 0, (ch + 1, off - 1): 0, (ch + 2, off - 1): 0, (ch + 3, off - 1): 0})
+            fixed[(ch + 16, idx_off)] = 6 + bit
+            suf = lambda o: auxmodel.SUF[o] if o in auxmodel.SUF else "@%+d" % o
+            hcell = lambda j: Poly.var(A.names[ch + 4 + j] + suf(off))
+
+            def var(nm, idx, primed):
+                if nm == "alpha":
+                    return Poly.var("alpha%d" % idx)
+                if nm == "i" and idx is None:
+                    return Poly.const(6 + bit)
+                if nm == "b" and idx is None:
+                    return Poly.const(bit)
+                if nm == "v" and idx is None:
+                    raise LatexError("bare v")
+                raise LatexError("unknown symbol %s_%s" % (nm, idx))
+            vb = Poly.const(0)
+            vc = Poly.const(0)
+            for j in range(4, 8):
+                vb = vb + Poly.var("alpha%d" % (j + 4)) * hcell(j)
+            for j in range(8, 12):
+                vc = vc + Poly.var("alpha%d" % (j + 4)) * hcell(j)
+            t = re.sub(r"(?<![A-Za-z])v_b(?![A-Za-z0-9])", "VB", rhs)
+            t = re.sub(r"(?<![A-Za-z])v_c(?![A-Za-z0-9])", "VC", t)
+
+            def var2(nm, idx, primed):
+                if nm == "VB":
+                    return vb
+                if nm == "VC":
+                    return vc
+                return var(nm, idx, primed)
+            key = "sibling|%s|bit=%d" % (name, bit)
+            ctx.inst(key=key, nontrivial=True)
+            try:
+                want = LatexParser(tokenize(t), var2, {}).expr()
+            except LatexError as e:
+                ctx.violation("doc-unparsed|v_sibling", "docs/src/design/chiplets/hasher.md", str(e)[:200])
+                return
+            res = [(g, v) for g, v in A.eval(fid, None, extra_fixed=fixed, row=row) if not isinstance(v, Exception)]
+            oth = [(g, v) for g, v in A.eval(other, None, extra_fixed=fixed, row=row) if not isinstance(v, Exception)]
+            ok = bool(res) and all(isinstance(v, Poly) and v == want for g, v in res) and bool(oth) and all(is_one(v) for g, v in oth)
+            ctx.oblig(ok)
+            if not ok:
+                ctx.violation(key, F.fns[fid].loc(), "sibling table, flag %s, index bit %d: %s gives %s and the opposite side %s; documented row: %s on this side only"
+                              % (name, bit, meth, sorted({str(v)[:160] for g, v in res})[:2], sorted({str(v)[:60] for g, v in oth})[:2], str(want)[:160]))
+
+
 def r4d_kernel_rom(ctx, F):
     """kernel ROM rows: the chiplets bus response and the kernel procedure table row (chiplets virtual table) have the forms of
     docs/src/design/chiplets/kernel_rom.md, each in its own column"""
@@ -1260,5 +1330,6 @@ def run(ctx, F):
     ctx.run_rule("C12-R4e", "HPERM / MPVERIFY / MRUPDATE bus requests equal the products of the documented input/output values with cycle-aligned labels", r4e_hasher_requests, F)
     ctx.run_rule("C12-R4g", "control-block bus requests (JOIN, SPLIT, LOOP, DYN, CALL, SYSCALL, SPAN, END) equal the documented values for cycle-aligned block addresses", r4g_control_requests, F)
     ctx.run_rule("C12-R4f", "hasher chiplet rows: bus responses have the documented form for each of the 7 transition flags and are 1 elsewhere", r4f_hasher_responses, F)
+    ctx.run_rule("C12-R4h", "sibling table rows (f_mv, f_mva added; f_mu, f_mua removed) equal the documented v_sibling for both index bits", r4h_sibling_table, F)
     ctx.run_rule("C12-R4b", "every block-stack push/pop has an insertion/removal; every executor that runs child blocks inserts them into the block hash table", r4b_who_inserts, F)
     ctx.run_rule("C12-R4c", "MainTrace::is_left_shift / is_right_shift agree with each operation's stack effect", r4c_shift_predicates, F)
